@@ -15,7 +15,7 @@ Set Warnings "-unused-intro-pattern".
 #[local] Opaque FUEL.
 
 Definition flat_class (k : cls) : Prop :=
-  c_dnc k = false /\ c_post_copy k = None /\
+  c_dnc k = false /\ oqfn (c_post_copy k) /\
   forall sp, In sp (c_attrs k) ->
     a_dnc sp = false /\ (scalar_ty (a_ty sp) = true \/ scalar_coll (a_ty sp) = true).
 
